@@ -789,6 +789,26 @@ class Fn:
         return fn_str(self.key, self.d, quiet=quiet)
 
 
+_ATOMS = None
+
+
+def atoms():
+    """Crate-local function paths that some rule refers to by name: these stay calls (atoms) when units are built."""
+    global _ATOMS
+    if _ATOMS is None:
+        import glob
+        import os
+        names = set()
+        here = os.path.dirname(os.path.abspath(__file__))
+        for p in glob.glob(os.path.join(here, "*.py")):
+            with open(p) as fh:
+                src = fh.read()
+            for m in re.finditer(r'"(<?(?:client|server|service|stream|bridge|rewind|happy_eyeballs|info|body)::[A-Za-z0-9_:<> ]+)"', src):
+                names.add(norm(m.group(1)))
+        _ATOMS = names
+    return _ATOMS
+
+
 # ---------------------------------------------------------------- whole-crate model
 
 class Facts:
@@ -881,6 +901,30 @@ class Facts:
                     continue
             out.add(r)
         return out
+
+    def unit(self, fn, depth=3):
+        """`fn` as a unit of analysis: its body with every crate-local helper spliced in, except the functions the rules
+        treat as atoms (those a rule names - see atoms()) and trait-impl methods.  A rule evaluated on unit(f) gives the same
+        verdict whether a step of f sits inline, in a freshly extracted private helper, or in a method split off f."""
+        if not hasattr(self, "_units"):
+            self._units = {}
+        key = (fn.key, depth)
+        if key not in self._units:
+            at = atoms()
+
+            def want(ck, raw):
+                if raw.get("impl_trait") or "::_::" in ck:
+                    return False  # trait impls; pin-project's generated project()/project_replace() (modelled as transparent)
+                n = norm(ck)
+                if n in at:
+                    return False
+                for a in at:
+                    if "::" in a and n.endswith("::" + a):
+                        return False
+                return True
+            import inline
+            self._units[key] = inline.inline(self, fn, depth, want)
+        return self._units[key]
 
     def family(self, fn, depth=3):
         """`fn` together with the code that is lexically / structurally part of it wherever a maintainer puts it: the closures
